@@ -4,15 +4,22 @@ import (
 	"context"
 	"errors"
 	"fmt"
+	"net"
+	"regexp"
 	"sort"
 	"strings"
 	"sync"
 	"time"
 
 	"cedarverif/harness/internal/bufpipe"
+	"cedarverif/harness/internal/refcodec"
 
+	"github.com/PelicanPlatform/classad/classad"
+
+	"github.com/bbockelm/cedar/client"
 	"github.com/bbockelm/cedar/message"
 	"github.com/bbockelm/cedar/security"
+	"github.com/bbockelm/cedar/server"
 	"github.com/bbockelm/cedar/stream"
 )
 
@@ -23,8 +30,56 @@ type triple struct{ tag, addr, cmd string }
 // ccHandshake: one real client handshake for (tag, addr, cmd) against a real server; `breakIt` makes
 // the server drop the connection right after reading the client's first message.
 func ccHandshake(cache *security.SessionCache, t triple, validCmds []int, breakIt bool, stall bool, explicitSid string, clientAuth security.SecurityLevel) (neg *security.SecurityNegotiation, resumed bool, err error) {
+	neg, resumed, _, _, err = ccHandshakeDecl(cache, t, validCmds, breakIt, stall, explicitSid, clientAuth)
+	return
+}
+
+var ccValidRe = regexp.MustCompile(`ValidCommands\s*=\s*"([^"]*)"`)
+
+// serverDeclared reads what the SERVER declared valid for the session from the wire: the post-auth ad
+// is the server's first protected message; it is opened with the reference codec under the key the
+// SERVER side holds (first-frame AAD = SHA-256 of the cleartext the server sent / received before it).
+// Nothing the client computed enters. ok=false when no protected server frame could be opened.
+func serverDeclared(c2s, s2c, key []byte) (string, bool) {
+	if len(key) == 0 {
+		return "", false
+	}
+	frames, _ := refcodec.ParseFrames(s2c)
+	for k := len(frames) - 1; k >= 0; k-- {
+		var clear []byte
+		for _, f := range frames[:k] {
+			clear = append(clear, f.Bytes()...)
+		}
+		dir, e := refcodec.NewDir(key, refcodec.Digest(clear, k > 0), refcodec.Digest(c2s, len(c2s) > 0))
+		if e != nil {
+			return "", false
+		}
+		var plain []byte
+		okAll := true
+		for _, f := range frames[k:] {
+			o, e := dir.Open(f)
+			if e != nil {
+				okAll = false
+				break
+			}
+			plain = append(plain, o.Plain...)
+		}
+		if !okAll {
+			continue
+		}
+		if m := ccValidRe.FindSubmatch(plain); m != nil {
+			return string(m[1]), true
+		}
+		return "", true // the ad carries no ValidCommands at all: nothing declared
+	}
+	return "", false
+}
+
+// ccHandshakeDecl is ccHandshake that also reports the server's own declaration of the commands valid
+// for the new session (full handshakes only), read from the wire independently of the client.
+func ccHandshakeDecl(cache *security.SessionCache, t triple, validCmds []int, breakIt bool, stall bool, explicitSid string, clientAuth security.SecurityLevel) (neg *security.SecurityNegotiation, resumed bool, declared string, declOK bool, err error) {
 	ca, cb := bufpipe.Pair("10.0.0.1:1111", "10.0.0.2:9618")
-	d := 800 * time.Millisecond
+	d := ccHonestBound
 	if stall {
 		d = 120 * time.Millisecond
 	}
@@ -35,6 +90,7 @@ func ccHandshake(cache *security.SessionCache, t triple, validCmds []int, breakI
 	cst, sst := stream.NewStream(ca), stream.NewStream(cb)
 	sst.SetPeerAddr("10.0.0.1:1111")
 	var wg sync.WaitGroup
+	var skey []byte // the key the SERVER side ended the handshake with
 	wg.Add(1)
 	go func() {
 		defer wg.Done()
@@ -54,9 +110,12 @@ func ccHandshake(cache *security.SessionCache, t triple, validCmds []int, breakI
 			return "", validCmds
 		}
 		a := security.NewAuthenticator(&sc, sst)
-		if _, e := a.ServerHandshake(ctx); e != nil {
+		sn, e := a.ServerHandshake(ctx)
+		if e != nil {
 			cb.Close()
+			return
 		}
+		skey = append([]byte{}, sn.GetSharedSecret()...)
 	}()
 	var cmd int
 	fmt.Sscan(t.cmd, &cmd)
@@ -70,8 +129,14 @@ func ccHandshake(cache *security.SessionCache, t triple, validCmds []int, breakI
 		ca.Close()
 	}
 	wg.Wait()
+	if err == nil && !resumed {
+		declared, declOK = serverDeclared(ca.Written(), cb.Written(), skey)
+	}
 	return
 }
+
+// ccHonestBound: generous bound for an honest in-memory handshake (nothing measures time).
+const ccHonestBound = 20 * time.Second
 
 func runClientCache(c *Ctx) error {
 	c.Res.Rule = "histories (2-8 steps) of real client handshakes over (tag in {none,T1,T2,srvA}) x (server address in {srvA, srvB, two sinful addresses that differ only in their ?sock= decoration, and the address srvA,srvB (contains a comma) — with tag srvA + address srvB this is the pair whose keys collided when commas were not escaped}) x (command in {60007,60008,60009}) against a real server whose post-auth ValidCommands vary, the client's own authentication policy drawn from PREFERRED / NEVER / REQUIRED, interleaved with server restart (session forgotten -> SID_NOT_FOUND), broken connections (peer closes) and stalled ones (peer goes silent, the client's deadline fires), client-side expiry (virtual time), explicit invalidation, InvalidateExpired, and handshakes that name a cached session explicitly by id under an arbitrary triple; after every step all 60 LookupByCommand routes are compared with the model and with a reference map (tag,addr,cmd) -> session kept by the spec rules; distinct by history; non-trivial = the history touches >=2 distinct triples"
@@ -94,7 +159,7 @@ func runClientCache(c *Ctx) error {
 		var ops, real []string
 		log := func(o, r string) { ops = append(ops, o); real = append(real, r) }
 		log("reset", "ok")
-		ref := map[triple]string{}  // reference map kept by the spec rules
+		ref := map[triple]string{}   // reference map kept by the spec rules
 		expired := map[string]bool{} // sids expired on the client
 		authOf := map[string]bool{}  // was the session established with authentication
 		var sids []string
@@ -130,13 +195,13 @@ func runClientCache(c *Ctx) error {
 				// the cache, REQUIRED must not ride such a session later (it does a full handshake)
 				clientAuth := pick(c, []security.SecurityLevel{security.SecurityPreferred, security.SecurityPreferred, security.SecurityNever, security.SecurityRequired})
 				req := clientAuth == security.SecurityRequired
-				neg, resumed, err := ccHandshake(cache, t, vc, breakIt, stall, "", clientAuth)
+				neg, resumed, declared, declOK, err := ccHandshakeDecl(cache, t, vc, breakIt, stall, "", clientAuth)
 				var r, full string
 				full = "~|none|~|0|-"
 				var sre *security.SessionResumptionError
 				switch {
 				case err == nil && resumed:
-					r = fmt.Sprintf("ok resumed sid=%s keyed=%s user=%s auth=%s", neg.SessionId, b01(len(neg.GetSharedSecret()) > 0), strOrTilde(neg.User), b01(neg.Authentication))
+					r = fmt.Sprintf("ok resumed sid=%s keyed=%s user=%s auth=%s", neg.SessionId, b01(len(neg.GetSharedSecret()) > 0), tokEsc(neg.User), b01(neg.Authentication))
 					// ---- property oracle C07 ----
 					if req && !authOf[neg.SessionId] {
 						c.Violate(Violation{Property: "C03", Key: "C03:client-resumed-unauthenticated-under-required", What: "a client whose policy marks authentication REQUIRED returned success by resuming a session that was established without authentication",
@@ -159,23 +224,44 @@ func runClientCache(c *Ctx) error {
 						}
 					}
 				case err == nil:
-					cl := strings.Split(neg.ValidCommands, ",")
-					sort.Strings(cl)
+					// The commands the session may be reused for are those the SERVER declared (the
+					// post-auth ad as it travelled, opened with the reference codec under the server's
+					// key) — not what the client says it understood.
+					if !declOK {
+						// could not read the server's ad from the wire: use what the server side was
+						// configured to declare (its PostAuthPolicy's list, else the negotiated command)
+						c.Count("declaration-unreadable")
+						c.Res.Notes = append(c.Res.Notes, "clientcache: post-auth ad could not be opened from the wire; declaration taken from the server's configuration")
+						var l []string
+						for _, x := range vc {
+							l = append(l, fmt.Sprint(x))
+						}
+						if len(l) == 0 {
+							l = []string{t.cmd}
+						}
+						declared = strings.Join(l, ",")
+					} else {
+						c.Count("declaration-read-from-wire")
+					}
 					key := "none"
 					if len(neg.GetSharedSecret()) > 0 {
 						key = "1"
 					}
-					full = fmt.Sprintf("%s|%s|%s|%s|%s", neg.SessionId, key, strOrTilde(neg.User), b01(neg.Authentication), strings.Join(strings.Split(neg.ValidCommands, ","), ","))
+					full = fmt.Sprintf("%s|%s|%s|%s|%s", neg.SessionId, key, tokEsc(neg.User), b01(neg.Authentication), declared)
 					r = "ok full sid=" + neg.SessionId
 					sids = append(sids, neg.SessionId)
 					authOf[neg.SessionId] = neg.Authentication
+					if canonList(neg.ValidCommands) != canonList(declared) {
+						c.Violate(Violation{Property: "C07", Key: "C07:client-valid-commands-not-as-declared", What: "the set of commands the client records as valid for the new session differs from what the server declared in its post-auth ad",
+							Ops: append(append([]string{}, ops...), fmt.Sprintf("# full handshake tag=%q addr=%s cmd=%s", t.tag, t.addr, t.cmd)), Expected: canonList(declared), Observed: canonList(neg.ValidCommands)})
+					}
 					if wantSid, ok := ref[t]; ok && !expired[wantSid] && !breakIt {
 						if _, found := security.GetSessionCache().LookupNonExpired(wantSid); found {
 							// a live, known session existed for exactly this triple and was not used: allowed (not a violation of C07)
 							c.Count("full-although-cached")
 						}
 					}
-					for _, cm := range strings.Split(neg.ValidCommands, ",") {
+					for _, cm := range strings.Split(declared, ",") {
 						cm = strings.TrimSpace(cm)
 						if cm != "" {
 							ref[triple{t.tag, t.addr, cm}] = neg.SessionId
@@ -185,7 +271,7 @@ func runClientCache(c *Ctx) error {
 					r = "ok full sid=~" // full handshake attempted and failed (broken connection)
 				}
 				log(fmt.Sprintf("chs tag=%s addr=%s cmd=%s answer=%s req=%s full=%s", strOrTilde(t.tag), t.addr, t.cmd, answer, b01(req), full), r)
-			case k == 6 && len(sids) > 0 && c.Rng.Intn(2) == 0:
+			case k == 6 && len(sids) > 0 && c.Rng.Intn(3) != 0:
 				// a handshake that names a cached session by id (the pre-registered / claim-session
 				// path) under an arbitrary (tag, server, command): it resumes that session whatever the
 				// triple is, and must leave the routes alone — no later ordinary handshake for this
@@ -197,15 +283,48 @@ func runClientCache(c *Ctx) error {
 				if _, found := security.GetSessionCache().LookupNonExpired(sid); !found {
 					answer = "sidNotFound"
 				}
-				neg, resumed, err := ccHandshake(cache, t, nil, false, false, sid, security.SecurityPreferred)
+				// the client's own authentication policy varies here too: under REQUIRED a session that
+				// was established without authentication must not be ridden by naming its id either
+				// (the client refuses locally, the cached session stays as it is)
+				cidAuth := pick(c, []security.SecurityLevel{security.SecurityPreferred, security.SecurityNever, security.SecurityRequired, security.SecurityRequired})
+				cidReq := cidAuth == security.SecurityRequired
+				if cidReq {
+					// prefer a session that was established without authentication, when there is one
+					var un []string
+					for _, x := range sids {
+						if !authOf[x] {
+							un = append(un, x)
+						}
+					}
+					if len(un) > 0 && c.Rng.Intn(4) != 0 {
+						sid = pick(c, un)
+						_, clientHas = cache.LookupNonExpired(sid)
+						answer = "authorized"
+						if _, found := security.GetSessionCache().LookupNonExpired(sid); !found {
+							answer = "sidNotFound"
+						}
+					}
+				}
+				refusedLocally := cidReq && clientHas && !authOf[sid]
+				if cidReq {
+					c.Count("op:explicit-sid-required")
+				}
+				if refusedLocally {
+					c.Count("op:explicit-sid-required-unauthenticated-session")
+				}
+				neg, resumed, err := ccHandshake(cache, t, nil, false, false, sid, cidAuth)
 				var sre *security.SessionResumptionError
 				r := "ok other"
 				switch {
 				case err == nil && resumed:
 					r = "ok resumed sid=" + neg.SessionId
+					if cidReq && !authOf[neg.SessionId] {
+						c.Violate(Violation{Property: "C03", Key: "C03:client-explicit-sid-resumed-unauthenticated-under-required", What: "a client whose policy marks authentication REQUIRED returned success by resuming, through an explicit SessionID, a session that was established without authentication",
+							Ops: append(append([]string{}, ops...), fmt.Sprintf("# handshake SessionID=%s tag=%q addr=%s cmd=%s Authentication=REQUIRED", sid, t.tag, t.addr, t.cmd)), Expected: "SessionResumptionError (the caller performs a full handshake, in which authentication runs)", Observed: fmt.Sprintf("resumed %s, Authentication=%v", neg.SessionId, neg.Authentication)})
+					}
 				case errors.As(err, &sre):
 					r = "ok resume-failed sid=" + sre.SessionID
-					if clientHas {
+					if clientHas && !refusedLocally {
 						// the server refused a session the client held: it is dropped with its routes
 						for tt, x := range ref {
 							if x == sid {
@@ -215,7 +334,7 @@ func runClientCache(c *Ctx) error {
 					}
 				}
 				c.Count("op:explicit-sid")
-				log(fmt.Sprintf("cid sid=%s answer=%s", sid, answer), r)
+				log(fmt.Sprintf("cid sid=%s answer=%s req=%s", sid, answer, b01(cidReq)), r)
 			case k == 6 && len(sids) > 0: // server restart: forgets everything
 				security.ClearSessionCache()
 				log("# server restart", "")
@@ -268,6 +387,285 @@ func runClientCache(c *Ctx) error {
 		}
 		cases = append(cases, Case{Label: fmt.Sprintf("clientcache#%d", i), Ops: ops, Real: real})
 	}
+	cases = append(cases, ccRetryCases(c)...)
+	ccKeylessClient(c)
 	security.ClearSessionCache()
 	return diffBatch(c, "sc", cases, nil)
+}
+
+// ccRetryCases drives the PUBLIC client entry point (client.ConnectAndAuthenticateWithConfig, the
+// drop-on-failure retry of the property) against a real server.Server over loopback TCP:
+// full handshake -> resumption -> server restart (its session store forgotten) -> the next call must
+// come back with a FULL handshake on a fresh connection (the failed resumption dropped the cached
+// session and its routes), and the one after that resumes the new session. The client is configured
+// with and without PeerName: a session is filed under PeerName when there is one, else under the
+// address the stream is connected to — never both.
+func ccRetryCases(c *Ctx) []Case {
+	var cases []Case
+	const cmd = 60007
+	srvCfg := srvConf(true)
+	srvCfg.Authentication = security.SecurityOptional
+	srv := server.New(srvCfg)
+	srv.Handle(cmd, func(ctx context.Context, sc *server.Conn) error { return nil })
+	ln, err := net.Listen("tcp", "127.0.0.1:0")
+	if err != nil {
+		c.Res.Notes = append(c.Res.Notes, "clientcache/retry: cannot listen on loopback: "+err.Error())
+		return nil
+	}
+	defer ln.Close()
+	sctx, scancel := context.WithCancel(context.Background())
+	defer scancel()
+	go func() { _ = srv.Serve(sctx, ln) }()
+	addr := ln.Addr().String()
+	for i := 0; i < c.Pick(8, 60); i++ {
+		security.ClearSessionCache()
+		cache := security.NewSessionCache()
+		peerName := ""
+		if i%2 == 1 {
+			peerName = fmt.Sprintf("daemon-%d.pool.example", i)
+		}
+		tag := pick(c, []string{"", "T1"})
+		filed, other := addr, peerName // where the spec files the session, and where it must NOT be found
+		if peerName != "" {
+			filed, other = peerName, addr
+		}
+		var ops, real []string
+		log := func(o, r string) { ops = append(ops, o); real = append(real, r) }
+		log("reset", "ok")
+		viol := func(key, what, exp, obs string) {
+			c.Violate(Violation{Property: "C07", Key: "C07:" + key, What: what, Ops: append([]string{}, ops...), Expected: exp, Observed: obs})
+		}
+		connect := func() (*security.SecurityNegotiation, error) {
+			ctx, cancel := context.WithTimeout(context.Background(), ccHonestBound)
+			defer cancel()
+			sec := &security.SecurityConfig{AuthMethods: toMethods([]string{"CLAIMTOBE"}), Authentication: security.SecurityPreferred,
+				CryptoMethods: toCiphers([]string{"AES"}), Encryption: security.SecurityOptional, Integrity: security.SecurityOptional,
+				Command: cmd, SessionCache: cache, PeerName: peerName, SecurityTag: tag}
+			cl, err := client.ConnectAndAuthenticateWithConfig(ctx, &client.ClientConfig{Address: addr, Security: sec, Timeout: 10 * time.Second, ClientName: "c07"})
+			if err != nil {
+				return nil, err
+			}
+			defer cl.Close()
+			return cl.GetSecurityNegotiation(), nil
+		}
+		chs := func(answer, full string) string {
+			return fmt.Sprintf("chs tag=%s addr=%s cmd=%d answer=%s req=0 full=%s", tokEsc(tag), tokEsc(filed), cmd, answer, full)
+		}
+		fullOf := func(n *security.SecurityNegotiation) string {
+			return fmt.Sprintf("%s|1|%s|%s|%s", tokEsc(n.SessionId), tokEsc(n.User), b01(n.Authentication), canonList(n.ValidCommands))
+		}
+		lookups := func(want string) {
+			for _, a := range []string{filed, other} {
+				if a == "" {
+					continue
+				}
+				e, ok := cache.LookupByCommand(tag, a, fmt.Sprint(cmd))
+				r := "ok none"
+				if ok {
+					r = "ok sid=" + tokEsc(e.ID())
+				}
+				log(fmt.Sprintf("clookup tag=%s addr=%s cmd=%d", tokEsc(tag), tokEsc(a), cmd), r)
+				if a == filed && (!ok || e.ID() != want) {
+					viol("session-filed-under-wrong-address", "after a full handshake the session is not routed under the name the client knows the server by (PeerName when set, else the address the stream is connected to)", "route ("+filed+") -> "+want, r)
+				}
+				if a == other && ok {
+					viol("session-filed-under-wrong-address", "the session is ALSO routed under the name that does not apply (stream address although PeerName is set, or vice versa)", "no route under "+other, r)
+				}
+			}
+		}
+		// 1. full handshake
+		n1, err := connect()
+		if err != nil || n1 == nil || n1.SessionResumed || n1.SessionId == "" {
+			c.Res.Notes = append(c.Res.Notes, fmt.Sprintf("clientcache/retry: first connection did not complete a full handshake: %v", err))
+			continue
+		}
+		log(chs("authorized", fullOf(n1)), "ok full sid="+tokEsc(n1.SessionId))
+		lookups(n1.SessionId)
+		// 2. resumption
+		n2, err := connect()
+		if err != nil || n2 == nil {
+			viol("resume-failed-unexpectedly", "the second connection to the same server for the same command and tag failed", "resumed "+n1.SessionId, fmt.Sprint(err))
+			continue
+		}
+		if n2.SessionResumed {
+			log(chs("authorized", "~|none|~|0|-"), fmt.Sprintf("ok resumed sid=%s keyed=%s user=%s auth=%s", tokEsc(n2.SessionId), b01(len(n2.GetSharedSecret()) > 0), tokEsc(n2.User), b01(n2.Authentication)))
+			if n2.SessionId != n1.SessionId {
+				viol("reused-wrong-session", "the client resumed another session than the one cached for this (tag, server, command)", n1.SessionId, n2.SessionId)
+			}
+			c.Count("retry:resumed-before-restart")
+		} else {
+			c.Count("retry:second-connection-not-resumed")
+			log(chs("authorized", fullOf(n2)), "ok full sid="+tokEsc(n2.SessionId))
+			n1 = n2
+		}
+		// 3. server restart: it no longer knows the session. The public entry point must come back
+		// with a full handshake (failed resumption -> cached session dropped -> retry on a fresh connection).
+		security.ClearSessionCache()
+		c.Count("retry:server-restart")
+		n3, err := connect()
+		log(chs("sidNotFound", "~|none|~|0|-"), "ok resume-failed sid="+tokEsc(n1.SessionId))
+		if err != nil || n3 == nil {
+			log(chs("authorized", "~|none|~|0|-"), "ok no-retry")
+			viol("no-full-handshake-after-failed-resumption", "after the server forgot the session, client.ConnectAndAuthenticateWithConfig did not come back with a full handshake (the drop-on-failure retry is missing or the cached session was not dropped)", "authenticated connection through a full handshake", fmt.Sprintf("error class %s", ccErrClass(err)))
+		} else {
+			if n3.SessionResumed || n3.SessionId == n1.SessionId {
+				viol("dead-session-reused", "after the server forgot the session the client still reports it as resumed", "a new session from a full handshake", fmt.Sprintf("resumed=%v sid=%s", n3.SessionResumed, n3.SessionId))
+			}
+			log(chs("authorized", fullOf(n3)), "ok full sid="+tokEsc(n3.SessionId))
+			if _, still := cache.Lookup(n1.SessionId); still {
+				viol("failed-session-not-dropped", "the session whose resumption failed is still in the client's cache", "dropped", "present")
+			}
+			lookups(n3.SessionId)
+			// 4. and the new session is resumable
+			n4, err := connect()
+			if err == nil && n4 != nil && n4.SessionResumed {
+				log(chs("authorized", "~|none|~|0|-"), fmt.Sprintf("ok resumed sid=%s keyed=%s user=%s auth=%s", tokEsc(n4.SessionId), b01(len(n4.GetSharedSecret()) > 0), tokEsc(n4.User), b01(n4.Authentication)))
+				if n4.SessionId != n3.SessionId {
+					viol("reused-wrong-session", "the client resumed another session than the one cached for this (tag, server, command)", n3.SessionId, n4.SessionId)
+				}
+			} else {
+				c.Count("retry:fourth-connection-not-resumed")
+			}
+		}
+		c.Count(fmt.Sprintf("retry:peername-set:%v", peerName != ""))
+		c.Distinct(strings.Join(ops, "\n"), true)
+		cases = append(cases, Case{Label: fmt.Sprintf("clientcache/retry#%d", i), Ops: ops, Real: real})
+	}
+	return cases
+}
+
+// ccErrClass: a class for an error of the public client entry point (never its text).
+func ccErrClass(err error) string {
+	var sre *security.SessionResumptionError
+	switch {
+	case err == nil:
+		return "none"
+	case errors.As(err, &sre):
+		return "resumption-failed"
+	case errors.Is(err, context.DeadlineExceeded), errors.Is(err, context.Canceled):
+		return "cancelled"
+	}
+	return "other"
+}
+
+// canonList: a comma-separated list as a sorted set of trimmed non-empty items.
+func canonList(l string) string {
+	var o []string
+	seen := map[string]bool{}
+	for _, x := range strings.Split(l, ",") {
+		x = strings.TrimSpace(x)
+		if x != "" && !seen[x] {
+			seen[x] = true
+			o = append(o, x)
+		}
+	}
+	sort.Strings(o)
+	return strings.Join(o, ",")
+}
+
+// ccKeylessClient: the CLIENT side of "a session without a key is never resumed". The client's cache
+// holds a session whose key material is absent / empty / not an AES-GCM key (a session established
+// with no common cipher, or stored that way by the application); the peer is a server that answers
+// ANY resumption request with AUTHORIZED and keys nothing (a rogue or broken server). Whether the
+// session is reached through its command route or named explicitly (SecurityConfig.SessionID), the
+// client must not report a successful handshake on a plaintext stream: a resumed connection is
+// protected by the session key or it does not exist. Implementation observables only (no model op).
+func ccKeylessClient(c *Ctx) {
+	type variant struct {
+		name string
+		ki   *security.KeyInfo
+	}
+	key32 := keyBytes(9)
+	variants := []variant{
+		{"nil", nil},
+		{"data-nil/AES", &security.KeyInfo{Data: nil, Protocol: "AES"}},
+		{"data-empty/AES", &security.KeyInfo{Data: []byte{}, Protocol: "AES"}},
+		{"data/3DES", &security.KeyInfo{Data: key32, Protocol: "3DES"}},
+		{"data/BLOWFISH", &security.KeyInfo{Data: key32, Protocol: "BLOWFISH"}},
+		{"data/empty-protocol", &security.KeyInfo{Data: key32, Protocol: ""}},
+	}
+	for _, v := range variants {
+		for _, explicit := range []bool{false, true} {
+			for _, encLevel := range []security.SecurityLevel{security.SecurityOptional, security.SecurityRequired} {
+				cache := security.NewSessionCache()
+				pol := classad.New()
+				_ = pol.Set("Authenticated", true)
+				_ = pol.Set("User", "alice@pool")
+				_ = pol.Set("AuthMethods", "CLAIMTOBE")
+				if v.ki != nil {
+					_ = pol.Set("CryptoMethods", v.ki.Protocol)
+				}
+				const sid = "srv:1:1:7"
+				cache.Store(security.NewSessionEntry(sid, "srvA", v.ki, pol, time.Now().Add(time.Hour), 30*time.Minute, ""))
+				cache.MapCommand("", "srvA", "60007", sid)
+				ca, cb := bufpipe.Pair("10.0.0.1:1111", "10.0.0.2:9618")
+				ctx, cancel := context.WithTimeout(context.Background(), ccHonestBound)
+				var wg sync.WaitGroup
+				var sawResume bool
+				wg.Add(1)
+				go func() {
+					defer wg.Done()
+					// the rogue server: read the first message; if it is a resumption request say AUTHORIZED
+					sst := stream.NewStream(cb)
+					m := message.NewMessageFromStream(sst)
+					if _, err := m.GetInt(ctx); err != nil {
+						cb.Close()
+						return
+					}
+					ad, err := m.GetClassAd(ctx)
+					if err != nil {
+						cb.Close()
+						return
+					}
+					if us, _ := ad.EvaluateAttrString("UseSession"); us != "YES" {
+						cb.Close() // a full handshake: this server cannot do one
+						return
+					}
+					sawResume = true
+					r := classad.New()
+					_ = r.Set("ReturnCode", "AUTHORIZED")
+					_ = r.Set("Sid", sid)
+					out := message.NewMessageForStream(sst)
+					_ = out.PutClassAd(ctx, r)
+					_ = out.FinishMessage(ctx)
+					// keep the connection until the client is done
+					buf := make([]byte, 64)
+					_, _ = cb.Read(buf)
+				}()
+				cst := stream.NewStream(ca)
+				cc := &security.SecurityConfig{AuthMethods: toMethods([]string{"CLAIMTOBE"}), Authentication: security.SecurityPreferred,
+					CryptoMethods: toCiphers([]string{"AES"}), Encryption: encLevel, Integrity: security.SecurityOptional,
+					Command: 60007, SessionCache: cache, PeerName: "srvA"}
+				if explicit {
+					cc.SessionID = sid
+				}
+				a := security.NewAuthenticator(cc, cst)
+				neg, err := a.ClientHandshake(ctx)
+				encrypted := cst.IsEncrypted()
+				ca.Close()
+				wg.Wait()
+				cancel()
+				path := "command-route"
+				if explicit {
+					path = "explicit-SessionID"
+				}
+				c.Count("keyless-client:" + path + ":" + v.name)
+				c.Distinct(fmt.Sprintf("keyless-client|%s|%s|%s", path, v.name, encLevel), true)
+				ops := []string{fmt.Sprintf("# client cache: session %s for srvA with KeyInfo %s, Authenticated=true; route (no tag, srvA, 60007) -> it", sid, v.name),
+					fmt.Sprintf("# ClientHandshake via %s, Encryption=%s, against a server that answers every resumption request AUTHORIZED and installs no key", path, encLevel)}
+				if err == nil && !encrypted {
+					obs := fmt.Sprintf("handshake returned success, stream plaintext, resumption request sent=%v", sawResume)
+					if neg != nil {
+						obs += fmt.Sprintf(", Authentication=%v User=%q Encryption=%v", neg.Authentication, neg.User, neg.Encryption)
+					}
+					c.Violate(Violation{Property: "C06", Key: "C06:client-resumed-keyless-session:" + path, What: "the client resumed a cached session that carries no usable key: the handshake reports success (with the cached identity) on a stream that no key protects",
+						Ops: ops, Expected: "no resumption: a SessionResumptionError, or a full handshake", Observed: obs})
+					if encLevel == security.SecurityRequired {
+						c.Violate(Violation{Property: "C03", Key: "C03:encryption-required-plaintext-after-resume:" + path, What: "a client whose policy marks encryption REQUIRED returned success from a (resumed) handshake on a plaintext stream",
+							Ops: ops, Expected: "error", Observed: obs})
+					}
+				}
+			}
+		}
+	}
 }
